@@ -898,7 +898,7 @@ ParBSRMatrix* ParCSRMatrix::to_ParBSR(const int block_row_size, const int block_
             prev_row = block_row;
         }
     }
-    if (global_num_rows == global_num_cols)
+    if (global_block_rows == global_block_cols && block_row_size == block_col_size)
     {
         A->on_proc_column_map = A->get_local_row_map();
     }
@@ -911,8 +911,8 @@ ParBSRMatrix* ParCSRMatrix::to_ParBSR(const int block_row_size, const int block_
             block_col = *it / block_col_size;
             if (block_col != prev_col)
             {
-                A->on_proc_column_map.emplace_back(block_row);
-                prev_col = block_row;
+                A->on_proc_column_map.emplace_back(block_col);
+                prev_col = block_col;
             }
         }
     }
@@ -931,7 +931,7 @@ ParBSRMatrix* ParCSRMatrix::to_ParBSR(const int block_row_size, const int block_
         }
     }
     A->local_num_rows = A->local_row_map.size();
-    A->on_proc_num_cols = A->local_num_rows;
+    A->on_proc_num_cols = A->on_proc_column_map.size();
     A->off_proc_num_cols = A->off_proc_column_map.size();
     A->off_proc->n_cols = A->off_proc_num_cols;
 
